@@ -97,7 +97,7 @@ def run(ctx):
         if rec["tlc"].get("exhaustive", {}).get("states"):
             ctx.cov["exec_exhaustive"] = ctx.cov.get("exec_exhaustive", 0) + 1
         nsched += rec["schedules_replayed"]
-        if rec["schedules_replayed"] == 0:
+        if rec["schedules_replayed"] == 0 and not any((rec["tlc"].get(w) or {}).get("violated") for w in ("exhaustive", "simulate")):
             raise MachineryFailure(f"no schedule came out of TLC for {case}")
         if rec["digest_mismatches"]:
             ctx.violation(case, "schedule-dependent-task-output", rec["digest_mismatches"])
